@@ -138,7 +138,14 @@ func (s *attrStore) Attrs(id uint64) (m map[string]interface{}, err error) {
 	// Add to cache.
 	s.attrCache.Set(id, m)
 
-	return m, nil
+	// Hand out a copy, as on a cache hit: the cached map, and the shared
+	// empty map used for ids without attributes, must stay out of the
+	// reach of callers, who are free to modify what they are given.
+	ret := make(map[string]interface{}, len(m))
+	for k, v := range m {
+		ret[k] = v
+	}
+	return ret, nil
 }
 
 // SetAttrs sets attribute values for a given ID.
